@@ -2,6 +2,7 @@ mod alpha;
 mod ev;
 mod model;
 mod props;
+mod real;
 
 use ev::{Ctx, Tier};
 use serde_json::json;
@@ -90,6 +91,23 @@ fn main() {
         .unwrap();
     curve25519_dalek::verif::force_backend(force);
     FORCE.store(force, std::sync::atomic::Ordering::Relaxed);
+    // prove that the override took effect (non-vacuity of the forced-dispatch runs)
+    let sel = curve25519_dalek::verif::selected_backend();
+    let want_sel = match (force, curve25519_dalek::verif::BACKEND_CFG) {
+        (1, _) => 0,
+        (2, "simd") | (2, "unstable_avx512") => 2,
+        (0, "simd") => 2,
+        (0, "unstable_avx512") => 3,
+        (0, _) => 0,
+        _ => {
+            eprintln!("dispatch {} is not available in a {} build", dispatch, curve25519_dalek::verif::BACKEND_CFG);
+            std::process::exit(2);
+        }
+    };
+    if sel != want_sel {
+        eprintln!("dispatcher selects {} but this run expects {} (CPU lacks the feature?)", sel, want_sel);
+        std::process::exit(2);
+    }
 
     let t0 = std::time::Instant::now();
     let n = model::selftest::run();
@@ -97,6 +115,9 @@ fn main() {
     ctx.count("model_selftest_checks", n as u64);
     match prop.as_str() {
         "C01" => props::c01::run(&ctx),
+        "C02" => props::c02::run(&ctx),
+        "C03" => props::c03::run(&ctx),
+        "C04" => props::c04::run(&ctx),
         _ => {
             eprintln!("unknown property {}", prop);
             std::process::exit(2);
